@@ -24,6 +24,7 @@ type HSpec struct {
 	MaxDecisions int    `json:"max_decisions,omitempty"`
 	TimeoutMs    int    `json:"timeout_ms,omitempty"`
 	ReplayRepeat int    `json:"replay_repeat,omitempty"`
+	IntArith     bool   `json:"int_arith,omitempty"`
 }
 
 type PropSpec struct {
@@ -205,7 +206,9 @@ func cmdCheck(args []string) {
 				cfg.Known[k.Label] = append(cfg.Known[k.Label], k)
 			}
 		}
+		LiftMulDiv = hs.IntArith
 		hr := explore(L, init, sp.Func(hs.Fn), &cfg)
+		LiftMulDiv = false
 		runs = append(runs, hr)
 		if *keep {
 			fmt.Print(hr.Summary())
